@@ -52,6 +52,24 @@ def simplify_cfg(s):
         n = copy.deepcopy(s); n["config"]["p_tie"] = 0.0; yield n
 
 
+LOCAL_GRIDS = ["TrapezoidalGrid", "LagrangeGrid2", "ClenshawCurtisGrid", "GaussLegendreGrid", "SimpsonGrid"]   # LejaGrid runs too (minutes per run: point optimisation) and is left out
+
+
+def make_local_grid(cfg):
+    """local grid families that run in the extend-split strategy in the pinned environment (BSplineGrid asserts)"""
+    import numpy as np
+    import sparseSpACE.Grid as G
+    a, b = np.array(cfg["a"], dtype=float), np.array(cfg["b"], dtype=float)
+    name = cfg.get("grid", "TrapezoidalGrid")
+    if name == "TrapezoidalGrid":
+        return G.TrapezoidalGrid(a=a, b=b, boundary=cfg["boundary"])
+    if name == "LagrangeGrid2":
+        return G.LagrangeGrid(a=a, b=b, boundary=True, p=2)
+    if name == "GaussLegendreGrid":
+        return G.GaussLegendreGrid(a=a, b=b)
+    return getattr(G, name)(a=a, b=b, boundary=True)
+
+
 class ExtendSplitSim(DS.DimwiseSim):
     strategy = "extend_split"
 
@@ -77,7 +95,7 @@ class ExtendSplitSim(DS.DimwiseSim):
                             jump=(c["a"][0] + 0.3 * (c["b"][0] - c["a"][0])) if c.get("jump") else None,
                             offset=c.get("offset", 0.0))
         self.f = f
-        grid = TrapezoidalGrid(a=a, b=b, boundary=c["boundary"])
+        grid = make_local_grid(c)
         self.op = Integration(f=f, grid=grid, dim=c["dim"], reference_solution=None if reference is None else np.array(reference, dtype=float),
                               print_level=100, log_level=100)
         norm = np.inf if c.get("norm", "inf") == "inf" else c["norm"]
@@ -143,7 +161,7 @@ class ExtendSplitSim(DS.DimwiseSim):
         from sparseSpACE.Grid import TrapezoidalGrid
         from simcore.env import SimFunction
         c = self.cfg
-        g = TrapezoidalGrid(a=np.array(c["a"], dtype=float), b=np.array(c["b"], dtype=float), boundary=c["boundary"])
+        g = make_local_grid(c)
         f2 = SimFunction(self.f.key, nnoise=self.f.nnoise, probes=self.f.probes, a=self.f.a, b=self.f.b, jump=self.f.jump, offset=self.f.offset)
         v = np.asarray(g.integrate(f2, [int(x) for x in level_coarse], np.array(leaf.start, dtype=float), np.array(leaf.end, dtype=float)), dtype=float)
         g.setCurrentArea(np.array(leaf.start, dtype=float), np.array(leaf.end, dtype=float), [int(x) for x in level_coarse])
